@@ -18,5 +18,7 @@ pub broadcast proof fn lemma_shl64(a: u128)
   requires a < 0x1_0000_0000_0000_0000u128
   ensures #[trigger] (a << 64u8) == a * 0x1_0000_0000_0000_0000u128
 { assert(a < 0x1_0000_0000_0000_0000u128 ==> (a << 64u8) == a * 0x1_0000_0000_0000_0000u128) by(bit_vector); }
-pub broadcast group bits64 { lemma_shl64, lemma_shr64, lemma_shr64_u32, lemma_mask64, lemma_hilo, lemma_mul_bound64 }
+pub broadcast proof fn lemma_shr32(p: u128) ensures #[trigger] (p >> 32u8) == p / 0x1_0000_0000u128
+{ assert((p >> 32u8) == p / 0x1_0000_0000u128) by(bit_vector); }
+pub broadcast group bits64 { lemma_shl64, lemma_shr32, lemma_shr64, lemma_shr64_u32, lemma_mask64, lemma_hilo, lemma_mul_bound64 }
 }
